@@ -17,25 +17,33 @@ LEAF = "f"
 # a position = chain of containers from the root to the configuration that owns the leaf field `f`
 #   ("schema", key) nested schema | ("ctype", key) config type (make_type) | ("list", key, idx) list of plain
 #   schemas, item idx | ("tlist", key, idx) list of config types, item idx
-POSITIONS = [
-    ("root", []),
-    ("root(ctype)", []),  # the root configuration itself is a ConfigType instance
-    ("schema", [("schema", "a")]),
-    ("schema/schema", [("schema", "a"), ("schema", "b")]),
-    ("ctype", [("ctype", "t")]),
-    ("ctype/schema", [("ctype", "t"), ("schema", "a")]),
-    ("schema/ctype", [("schema", "a"), ("ctype", "t")]),
-    ("list", [("list", "items", 0)]),
-    ("list", [("list", "items", 1)]),
-    ("list/schema", [("list", "items", 1), ("schema", "a")]),
-    ("schema/list", [("schema", "a"), ("list", "items", 1)]),
-    ("tlist", [("tlist", "titems", 0)]),
-    ("tlist", [("tlist", "titems", 1)]),
-    ("tlist/schema", [("tlist", "titems", 1), ("schema", "a")]),
-    ("list/ctype", [("list", "items", 1), ("ctype", "t")]),
-    ("list/list", [("list", "items", 1), ("list", "inner", 1)]),
+def _posname(pos, root_ctype=False):
+    if not pos:
+        return "root(ctype)" if root_ctype else "root"
+    return "/".join(s[0] if s[0] in ("schema", "ctype") else "%s#%d" % (s[0], s[2]) for s in pos)
+
+
+_CHAINS = [
+    [],
+    [("schema", "a")],
+    [("schema", "a"), ("schema", "b")],
+    [("ctype", "t")],
+    [("ctype", "t"), ("schema", "a")],
+    [("schema", "a"), ("ctype", "t")],
+    [("list", "items", 0)],
+    [("list", "items", 1)],
+    [("list", "items", 1), ("schema", "a")],
+    [("schema", "a"), ("list", "items", 1)],
+    [("tlist", "titems", 0)],
+    [("tlist", "titems", 1)],
+    [("tlist", "titems", 1), ("schema", "a")],
+    [("list", "items", 1), ("ctype", "t")],
+    [("list", "items", 1), ("list", "inner", 1)],
 ]
-GENERIC_POSITIONS_QUICK = [0, 3, 8]  # root, schema/schema, list[1]
+POSITIONS = [(_posname(c), c) for c in _CHAINS]
+POSITIONS.insert(1, ("root(ctype)", []))  # the root configuration itself is a ConfigType instance
+EQUAL_ITEM_POSITIONS = ("list#1", "tlist#1", "schema/list#1", "list#1/list#1")
+GENERIC_POSITIONS_QUICK = ("root", "schema/schema", "list#1")
 
 
 def _boom(cfg, value):
@@ -159,13 +167,7 @@ def _tree(pos, inner, equal_items=False):
                 item.update(cur)
                 items = [{"ok": j + 1} for j in range(idx)] + [item]
             cur = {seg[1]: items}
-    if "ok" in cur and len(cur) > 1 and not pos:
-        cur = dict(cur)
     return cur
-
-
-def _strip_ok_root(tree):
-    return tree
 
 
 def _prepare_lists(cfg, pos, equal_items=False):
@@ -260,6 +262,8 @@ def _execute(spec):
         else:
             field_path = ".".join([p for p in [_path(pos, t, leaf=False)] if p] + [seg[1]])
             expected = [field_path]
+            if seg[0] in ("list", "tlist") and isinstance(value, (list, tuple)):
+                expected += ["%s[%d]" % (field_path, i) for i in range(len(value))]
 
     def run():
         if route in ("attr", "dotted", "attr-after-load"):
@@ -319,7 +323,7 @@ def _judge(spec, out):
         return []
     route = spec["route"]
     rc = _route_class(route)
-    where = {"attr": "core:Config._set_value", "dotted": "core:Config.__setitem__", "ctor": "core:Config.__init__",
+    where = {"attr": "core:Config._set_value", "dotted": "core:Config._set_value", "ctor": "core:Config._set_value",
              "load_tree": "core:Config.load_tree", "attr-after-load": "core:Config._set_value"}.get(
         route, "core:Config.loads")
     fails = []
@@ -343,8 +347,8 @@ def _judge(spec, out):
             wk = "%s(equal-items):%s:field" % (spec["posname"], rc)
         elif spec["kind"] == "leaf" and "[" in out["expected_paths"][0].rsplit(".", 1)[-1] and leaf in TYPED_DICT:
             wk = "dict-entry:%s" % ("inside-list-or-configtype" if nonplain or spec.get("root_ctype") else "plain")
-        elif spec["kind"] == "shape":
-            wk = "%s:%s:container-shape" % (spec["posname"], rc)
+        elif spec["kind"] == "shape":  # same input class as a field of the configuration owning the container
+            wk = "%s:%s:field" % (_posname([tuple(x) for x in spec["pos"][:spec["target"]]]), rc)
         else:
             wk = "%s:%s:field" % (spec["posname"], rc)
         fails.append((where + "/raise:C15.ref-path",
@@ -412,29 +416,27 @@ def rac(tier="quick", seed=0):
             for t in range(len(pos)):
                 for as_item in ((False, True) if pos[t][0] in ("list", "tlist") else (False,)):
                     for shape in SHAPES:
-                        if as_item and shape == "none":
-                            pass
                         for route in ["attr", "ctor", "load_tree"] + ["loads:" + f for f in FORMATS]:
                             one({"kind": "shape", "posname": posname, "pos": [list(s) for s in pos], "leaf": "int",
                                  "target": t, "as_item": as_item, "value": shape, "route": route})
         # (3) equal-valued items in lists of configurations (index must still be the item's own)
         for posname, pos in POSITIONS:
-            if not any(s[0] in ("list", "tlist") and s[2] == 1 for s in pos):
+            if posname not in EQUAL_ITEM_POSITIONS:
                 continue
             for route in routes_all:
                 one({"kind": "leaf", "posname": posname, "pos": [list(s) for s in pos], "leaf": "int", "value": "str",
                      "route": route, "equal_items": True})
         # (4) malformed values of every type on every leaf kind
-        gen_positions = GENERIC_POSITIONS_QUICK if tier == "quick" else range(len(POSITIONS))
-        for pi in gen_positions:
-            posname, pos = POSITIONS[pi]
-            full = tier != "quick" or pi == 0
+        for posname, pos in POSITIONS:
+            if tier == "quick" and posname not in GENERIC_POSITIONS_QUICK:
+                continue
+            full = tier != "quick" or posname == "root"
             routes = routes_all if full else ["attr", "load_tree", "loads:json"]
             for leaf_kind in leaves:
                 for vname in GENERIC_POOL:
                     for route in routes:
                         if tier != "quick" and rec.out_of_time():
-                            break
+                            return rec.result(exhaustive=False)
                         one({"kind": "leaf", "posname": posname, "pos": [list(s) for s in pos],
                              "root_ctype": posname == "root(ctype)", "leaf": leaf_kind, "value": vname, "route": route})
     return rec.result(exhaustive=False)
